@@ -1473,7 +1473,7 @@ struct array : static_array<T, D, Alloc> {
 		if constexpr(!(std::is_trivially_default_constructible_v<typename array::element_type> || multi::force_element_trivial_default_construction<typename array::element_type>)) {
 			adl_alloc_uninitialized_value_construct_n(this->alloc(), tmp.data_elements(), tmp.num_elements());
 		}
-		auto const is = intersection(this->extensions(), extensions);
+		auto const is = intersection(this->extensions(), tmp.extensions());
 		tmp.apply(is) = this->apply(is);  // TODO(correaa) : use (and implement) `.move();`
 		this->destroy();
 		this->deallocate();
@@ -1504,7 +1504,7 @@ struct array : static_array<T, D, Alloc> {
 			exs
 		);
 		this->uninitialized_fill_n(tmp.data_elements(), static_cast<typename multi::allocator_traits<typename array::allocator_type>::size_type>(tmp.num_elements()), elem);
-		auto const is = intersection(this->extensions(), exs);
+		auto const is = intersection(this->extensions(), tmp.extensions());
 		tmp.apply(is) = this->apply(is);
 		this->destroy();
 		this->deallocate();
